@@ -169,6 +169,17 @@ CHECKS = {
   note="Partial. Trusted: Coq kernel, vm_compute, per-scope trace validation, the program generator and seeders. INTENT/dummy/type-accessibility/deferred classes are differential only.",
   technique="Rocq proof (exact characterisation of the diagnostic decision rules for all scopes; structural classes from the scope machine) over transcriptions validated against the implementation's check_* + differential fault seeding of all 15 defect classes",
   design="4/C07"),
+ "C10": dict(
+  text="Coq theorems (C10/Props.v): for every history of open/save/close, buffer changes, writes behind the server's back, creations and delete+close events "
+       "the workspace index keeps the invariant 'object tree = union of the unit names of the current buffers, each owned by its file'; once every known "
+       "document is saved and every file of the directory is known, the index (text each file was parsed from, owner of each top-level name) equals that of "
+       "a server freshly started on the final directory, provided unit names never collide (H1); after any change the next save re-reads the disk. A "
+       "refutation witness without H1 (name collision prunes another file's unit; known finding). The model is validated against the server after every "
+       "event of generated histories; cross-file links, type layouts, completion, hover, references and diagnostics are compared by an identical query "
+       "battery on the long-lived and a fresh server.",
+  note="Partial. Trusted: Coq kernel, vm_compute, trace validation, generator/battery. Link-level state is battery-only.",
+  technique="Rocq proof (index invariant by induction over histories; quiescent = fresh refinement) over a hand model trace-validated after every event + long-lived vs fresh server query-battery differential",
+  design="4/C10"),
 }
 NOT_YET = "not yet built in this round; see DESIGN.md section 8 (build order)"
 
